@@ -152,7 +152,15 @@ def check(run: Run) -> None:
             g_empty = any((le := len_eq(a)) is not None and pol and le[1] == "Eq" and le[2] == 0 and strip_sites(fc.term_of(le[0])) == d_term for a, pol in fx.atoms) or any((not pol) and strip_sites(fc.term_of(a)) == d_term for a, pol in fx.atoms if isinstance(a, ast.expr) and not isinstance(a, (ast.Compare, ast.Call)))
             run.check(g_name, "C15.R3", cv, s, "removal guarded by callee is Name('MetaData')", "removal of a wrapper is not restricted to calls of the Name MetaData")
             run.check(g_two, "C15.R3", cv, s, "removal guarded by len(args) == 2", "removal is not guarded by 'exactly two arguments'")
-            run.check(g_dict and g_empty, "C15.R3", cv, s, "removal guarded by 'dictionary literal is a dict of length 0'", "a wrapper is removed although its dictionary is not known to be an empty dict: non-empty metadata may be dropped")
+            by_eval = g_dict and g_empty
+            a1 = ("index", ("attr", V, "args"), 1)
+            s_dict = fx.isinstance_of(a1, {"ast.Dict"})
+            fields1 = {("attr", a1, "keys"), ("attr", a1, "values")}
+            s_empty = any((le := len_eq(a)) is not None and pol and le[1] == "Eq" and le[2] == 0 and strip_sites(fc.term_of(le[0])) in fields1 for a, pol in fx.atoms) or any((not pol) and isinstance(a, ast.expr) and not isinstance(a, (ast.Compare, ast.Call)) and strip_sites(fc.term_of(a)) in fields1 for a, pol in fx.atoms)
+            if by_eval and not s_dict:
+                run.fail("C15.R3", cv, s, "whether a wrapper is empty is decided by evaluating its second argument (ast.literal_eval) without knowing that it is a literal: for a wrapper whose dictionary is a name or an expression - certainly not an *empty* wrapper - the cleaner raises ValueError instead of keeping it in place, and value() fails before any executor is called", "isinstance(n.args[1], ast.Dict) and len(n.args[1].keys) == 0", key="emptiness decided by evaluating the argument")
+            else:
+                run.check(s_dict and s_empty, "C15.R3", cv, s, "removal guarded by 'the dictionary argument is a literal ast.Dict without entries'", "a wrapper is removed although its dictionary is not known to be an empty dict literal: non-empty metadata may be dropped")
             continue
         run.fail("C15.R3", cv, s, f"cleaner returns {show(t)[:120]}: expected the visited call or its source", "n or n.args[0]", show(t))
     run.check(n_rm == 1, "C15.R3", cv, cv.node, "exactly one removal path", f"{n_rm} removal paths")
